@@ -1,9 +1,16 @@
 #!/bin/bash
-# usage: tools/regress_seeded.sh [<seeded-id>...]   every stored seeded change against the quick check of its property
+# usage: tools/regress_seeded.sh [<seeded-id>...]
+# Every stored seeded change against the quick check of its property, through a
+# shadow copy (tools/try_shadow.sh): /repo is not touched. A change that alters
+# go.mod cannot be shadowed and is tried in /repo itself (tools/try_mutation.sh).
 cd /verif
 ids="$@"; [ -z "$ids" ] && ids=$(ls seeded)
 for id in $ids; do
   prop=${id%%-*}
-  out=$(LINES_MAX=2 tools/try_mutation.sh /verif/seeded/$id/patch.diff $prop 2>&1)
+  if grep -q "^diff --git a/go.mod" seeded/$id/patch.diff; then
+    out=$(LINES_MAX=2 tools/try_mutation.sh /verif/seeded/$id/patch.diff $prop 2>&1)
+  else
+    out=$(LINES_MAX=2 tools/try_shadow.sh /verif/seeded/$id/patch.diff $prop 2>&1)
+  fi
   if echo "$out" | grep -q "== $prop exit=1"; then echo "CAUGHT $id $(echo "$out" | grep signature | head -1 | cut -c1-150)"; else echo "MISSED $id"; echo "$out" | tail -3 | cut -c1-200; fi
 done
